@@ -39,6 +39,16 @@ def annotatable_lines(text):
     return out
 
 
+# programs in which a rule renames or deletes a definition that other lines refer to: every line is annotated in turn
+RENAMERS = [
+    "def first(x):\n    return x + 1\n\n\ndef second(x):\n    return x + 1\n\n\nprint(first(1))\nprint(second(2))\nvalue = second(3)\nprint(value)\n",
+    "class Foo:\n    def asdf(self):\n        x = None\n        if 2 in {1, 2, 3}:\n            print(3)\n\n\ndef wsdf():\n    z = ()\n    if 2 in {1, 2, 3}:\n        print(3)\n\n\nwsdf()\nFoo().asdf()\n",
+    "class lower_case:\n    someAttr = 1\n\n    def doThing(self, argOne):\n        localVar = argOne + 1\n        return localVar\n\n\ninstance = lower_case()\nprint(instance.doThing(2))\nprint(lower_case.someAttr)\n",
+    "def run(items):\n    unusedThing = 3\n    for i in range(len(items)):\n        print(items[i])\n    total = 0\n    for item in items:\n        total += item\n    return total\n\n\nprint(run([1, 2]))\n",
+    "import os, sys\nimport os\nfrom os import path, sep\n\n\ndef show():\n    import json\n    print(json.dumps(1), os.getcwd(), sep, path)\n\n\nshow()\nprint(sys.argv)\n",
+]
+
+
 # --------------------------------------------------------------------------------- worker side
 def w_ignore(arg):
     from .. import hooks, pipeline
@@ -73,14 +83,14 @@ def w_ignore(arg):
                 lost.append(w)
         for w in lost:
             # attribute: first top-level step whose output no longer contains the line
-            step = next((s for s in obs["steps"] if s["depth"] == 0 and s["out"] is not None and w in s["in"].split("\n") and w not in s["out"].split("\n")), None)
+            step = next((s for s in obs["steps"] if s["depth"] == 0 and s["out"] is not None and s["in"].split("\n").count(w) > s["out"].split("\n").count(w)), None)
             rule = step["rule"] if step else None
             direct = False
             sched_touched = False
             if step:
-                direct = any(e for e in obs["edits"] if rule in e["stack"] and e["out"] is not None and w in e["in"].split("\n") and w not in e["out"].split("\n"))
-                sched_touched = any(p for p in obs["passes"] if rule in p["stack"] + [""] and p.get("result") and w in p["source"].split("\n") and w not in p["result"].split("\n"))
-            stripped_present = any(l.strip() == w.strip() for l in out_lines)
+                direct = any(e for e in obs["edits"] if rule in e["stack"] and e["out"] is not None and e["in"].split("\n").count(w) > e["out"].split("\n").count(w))
+                sched_touched = any(p for p in obs["passes"] if rule in p["stack"] + [""] and p.get("result") and p["source"].split("\n").count(w) > p["result"].split("\n").count(w))
+            stripped_present = sum(l.strip() == w.strip() for l in out_lines) >= sum(l.strip() == w.strip() for l in ann.split("\n"))
             code_part = w.split("#")[0].strip()
             kind_of_loss = "re-indented" if stripped_present else ("comment_left_behind" if any(l.strip() == IGNORE.strip() for l in out_lines) else
                                                                  ("rewritten" if any("pyrefact: ignore" in l for l in out_lines) else "deleted"))
@@ -172,13 +182,14 @@ def main() -> int:
     ex = [(o, textwrap.dedent(t)) for o, t in corpus.repo_examples(3) if len(t) < 2000]
     sources = [(f"antagonist{i}", t) for i, t in enumerate(c09.ANTAGONISTS)] + (ex if thorough else r.sample(ex, 170))
     sources += [(f"zoo:{n}", hostile.CONSTRUCTS[n]) for n in sorted(hostile.CONSTRUCTS)][: 49 if thorough else 20]
+    sources += [(f"rename{i}", t) for i, t in enumerate(RENAMERS)]
     cases = []
     for sid, text in sources:
         idx = annotatable_lines(text)
         if not idx:
             continue
         rr = env.rng(PROP, "lines", sid)
-        singles = idx if thorough else rr.sample(idx, min(len(idx), 7))
+        singles = idx if thorough or sid.startswith("rename") else rr.sample(idx, min(len(idx), 7))
         for i in singles:
             cases.append({"id": f"{sid}:{i}", "text": text, "lines": [i], "options": rr.choice(c04.OPTION_VECTORS[:4])})
         for k in range(2 if thorough else 1):
